@@ -108,9 +108,22 @@ fn gen_gff(rng: &mut Rng, excl: &[u8], allow_empty_value: bool) -> GffRec {
     let rich = rng.chance(1, 12);
     let nkeys = if rich { rng.range(3, 18) as u64 } else { rng.below(5) };
     for _ in 0..nkeys {
+        // blanks: GFF2/GTF2 use the blank as key/value delimiter; in GFF3 ('=') keys may contain inner blanks (the reader
+        // skips blanks in front of a key) and values may contain blanks anywhere
+        let blank_is_delim = excl.contains(&b' ');
         let mut ex = excl.to_vec();
         ex.push(b' ');
-        let k = text(rng, 1, 6, &ex, false);
+        let k = if blank_is_delim || rng.chance(2, 3) {
+            text(rng, 1, 6, &ex, false)
+        } else {
+            let t = text(rng, 1, 8, excl, true);
+            let t = t.trim_start_matches(' ').to_string();
+            if t.is_empty() {
+                "k y".to_string()
+            } else {
+                t
+            }
+        };
         if attrs.iter().any(|(kk, _)| *kk == k) {
             continue;
         }
@@ -122,7 +135,15 @@ fn gen_gff(rng: &mut Rng, excl: &[u8], allow_empty_value: bool) -> GffRec {
             1
         };
         let vs = (0..nv)
-            .map(|_| if allow_empty_value && rng.chance(1, 3) { String::new() } else { text(rng, 1, 7, &ex, false) })
+            .map(|_| {
+                if allow_empty_value && rng.chance(1, 3) {
+                    String::new()
+                } else if !blank_is_delim && rng.chance(1, 3) {
+                    text(rng, 1, 7, excl, true)
+                } else {
+                    text(rng, 1, 7, &ex, false)
+                }
+            })
             .collect();
         attrs.push((k, vs));
     }
